@@ -85,6 +85,7 @@ XalanSourceTreeDocument::XalanSourceTreeDocument(
     m_nonPooledStrings(theManager, theValuesStringPoolBlockSize),
     m_stringBuffer(theManager)
 {
+    createMapListHeads();
 }
 
 
@@ -156,12 +157,31 @@ XalanSourceTreeDocument::XalanSourceTreeDocument(
     m_nonPooledStrings(theManager, eDefaultValuesStringPoolBlockSize),
     m_stringBuffer(theManager)
 {
+    createMapListHeads();
 }
 
 
 
 XalanSourceTreeDocument::~XalanSourceTreeDocument()
 {
+}
+
+
+
+void
+XalanSourceTreeDocument::createMapListHeads()
+{
+    // A const find() or end() on a XalanMap that has never been used creates
+    // the head node of its entry list on demand (XalanList::getListHead() const
+    // casts away const and allocates).  A document is shared between threads
+    // once it has been built, and getElementById() and getUnparsedEntityURI()
+    // are const members which do exactly that on a document without IDs or
+    // unparsed entities, so create the list heads now, while the document still
+    // belongs to one thread.  Stylesheet's constructor does the same for its
+    // pattern tables.
+    m_elementsByID.end();
+
+    m_unparsedEntityURIs.end();
 }
 
 
